@@ -565,6 +565,11 @@ func (e *Exec) VerifyFunction(fn *ssa.Function, ctr *Contract) (err error) {
 	if ctr != nil && ctr.Calls != nil {
 		e.Out.Assert(Eq(e.get(e.entry, "$calls$"+ctr.Calls.Fun, SInt), "0"))
 	}
+	if ctr != nil {
+		for i := range ctr.MustCall {
+			e.Out.Assert(Eq(e.get(e.entry, fmt.Sprintf("$calls$must%d", i), SInt), "0"))
+		}
+	}
 	// parameters
 	var args []Val
 	for _, p := range fn.Params {
@@ -622,6 +627,11 @@ func (e *Exec) VerifyFunction(fn *ssa.Function, ctr *Contract) (err error) {
 			// contracts); its negation canaries are then meaningless and are dropped by PostProcess
 			addRet(&Obligation{Name: FuncKey(fn) + "/canary:reach" + suffix, Func: FuncKey(fn), Kind: "reach", Label: "reach" + suffix, Text: "return at " + r.pos + " is reachable",
 				Formula: Not(r.guard), Expect: "sat"}, r)
+			for i, mc := range ctr.MustCall {
+				cnt := e.get(r.st, fmt.Sprintf("$calls$must%d", i), SInt)
+				addRet(&Obligation{Name: FuncKey(fn) + "/mustcall:" + trimPkg(mc.Key) + "/once" + suffix, Func: FuncKey(fn), Kind: "calls", Label: "once", Text: mc.Key + " has been called exactly once when this return is reached", Src: mc.Src,
+					Formula: Imp(r.guard, Eq(cnt, "1")), Inputs: e.obsInputs(fr)}, r)
+			}
 			if ctr.Calls != nil {
 				cnt := e.get(r.st, "$calls$"+ctr.Calls.Fun, SInt)
 				addRet(&Obligation{Name: FuncKey(fn) + "/calls:" + ctr.Calls.Fun + "/once" + suffix, Func: FuncKey(fn), Kind: "calls", Label: "once", Text: ctr.Calls.Fun + " has been called exactly once when this return is reached", Src: ctr.Calls.Src,
